@@ -529,9 +529,9 @@ func dirtyCase(fname string, d, x int) result {
 				r.fail("C16:dirty-destination:"+fname, "dirty", "%s(%x): value on a fresh object %x, on an object that held %x (decode %v) %x", fname, xe, a, de, okD0, b)
 				return
 			}
-			r.out(fmt.Sprintf("dirty:decoded-same(destination held valid point=%v)", okD0))
+			r.out("dirty:decoded-same-as-fresh")
 		} else {
-			r.out(fmt.Sprintf("dirty:rejected-same(destination held valid point=%v)", okD0))
+			r.out("dirty:rejected-same-as-fresh")
 		}
 	})
 	if panicked {
